@@ -99,6 +99,13 @@ def run(F, ck, tier):
     # R11.5 (shared with C10)
     sub = c09._Sub(ck, 'R11.5')
     c10.run(F, _Proxy(ck, 'R11.5'), 'quick')
+    # R11.7 configuration source (shared with R06.6): the FRI / STARK circuit functions take every configuration from their parameters
+    ck.rule('R11.7', 'in-circuit STARK / FRI verifier functions pass configuration-typed arguments derived from their own parameters (the inner STARK), never the outer builder\'s configuration')
+    from . import c06
+    c06.inner_config_source(F, _Rename(ck, 'R11.7'))
+    # R11.8 simulated opening set: circuit, native verifier and prover build it alike (shared with R09.10)
+    ck.rule('R11.8', 'the in-circuit builder of the simulated opening set takes the same number of powers per simulating challenge as the native verifier and the prover')
+    c09.simulation_siblings(F, ck, 'R11.8')
     # R11.6 exact pairing in STARK witness assignment
     ck.rule('R11.6', 'STARK witness assignment pairs targets with proof values exactly (zip_eq / fixed arrays / guard rejecting surplus values) and does not drop an optional part the circuit has no target for')
     from . import assign
@@ -125,3 +132,21 @@ class _Proxy:
 
     def observe(self, t):
         self.ck.observe(t)
+
+
+class _Rename:
+    """re-files obligations of a shared rule under another rule id"""
+    def __init__(self, ck, rid):
+        self.ck, self.rid = ck, rid
+
+    def ob(self, rule, key, ok, detail='', loc=None):
+        return self.ck.ob(self.rid, key, ok, detail, loc)
+
+    def floor(self, rule, what, count, floor):
+        return self.ck.floor(self.rid, what, count, floor)
+
+    def rule(self, *a):
+        pass
+
+    def observe(self, *a):
+        return self.ck.observe(*a)
